@@ -440,7 +440,16 @@ class PolyEnv:
         if isinstance(e, ast.Set):
             return "{" + ", ".join(sorted(self._arg(x) for x in e.elts)) + "}"
         if isinstance(e, ast.JoinedStr):
-            return " ".join(ast.unparse(e).split())
+            parts = []
+            for v in e.values:
+                if isinstance(v, ast.Constant):
+                    parts.append(str(v.value).replace("{", "{{").replace("}", "}}"))
+                elif isinstance(v, ast.FormattedValue):
+                    conv = {-1: "", 115: "!s", 114: "!r", 97: "!a"}.get(v.conversion, "")
+                    spec = (":" + "".join(str(x.value) if isinstance(x, ast.Constant) else "{" + self._arg(x.value) + "}" for x in v.format_spec.values)) \
+                        if isinstance(v.format_spec, ast.JoinedStr) else ""
+                    parts.append("{" + self._arg(v.value) + conv + spec + "}")
+            return 'f"' + "".join(parts) + '"'
         if isinstance(e, ast.BoolOp):
             op = "and" if isinstance(e.op, ast.And) else "or"
             return f" {op} ".join(f"({self._arg(v)})" for v in e.values)
